@@ -1,10 +1,14 @@
 import LinOp.Core.Parse
 import LinOp.C10.Model
+import LinOp.C10.History
+import LinOp.Generated.C10Consts
 /-!
 Line-protocol driver for the C10 model (no Mathlib).
 
   pc  <rat|flt> <rank> <tol> <A_1|A_2|…>            pivoted Cholesky on a batch (`tol` as p/q)
       → `m=<m> inexact=<0|1> # <member> # <member> …`,  member = `perm=… piv=… err=… rows=r1;r2;…`
+  hist <gen|0|1> <A_1|A_2|…> <rank:errorTol:settingsTol;…>     a HISTORY of calls on one operator object (`errorTol` = `-` for None);
+      memoisation `gen` = as the decorator list extracted from the working tree says → `m:perm|perm;m:perm|perm;…`
   inv <p_0,…,p_{n-1}>                               inverse_permutation
   cd  <d_1|d_2|…>                                   `_constant_diag` flag of a batch of noise vectors
   en  <maxSize> <minSize> <n>                       preconditioner enabled?
@@ -66,15 +70,29 @@ def showMember {α : Type} {n : Nat} (sh : α → String) (s : St α n) (m : Nat
 
 def runPcRat (n rank : Nat) (tol : Rat) (ms : List (Array (Array Rat))) : String :=
   let As : List (Mat Rat n n) := ms.map fun a => matOf a n n
-  let (m, ss) := run ratPrim As rank tol
+  let (m, ss) := runM ratPrim As rank tol
   let inexact := ss.any fun s =>
     ((List.finRange n).filter fun j => j.val < m).any fun j => (ratSqrt? (s.diag.get (s.perm.get j))).isNone
   s!"m={m} inexact={if inexact then 1 else 0} # " ++ " # ".intercalate (ss.map fun s => showMember showRat s m)
 
 def runPcFlt (n rank : Nat) (tol : Rat) (ms : List (Array (Array Rat))) : String :=
   let As : List (Mat Float n n) := ms.map fun a => fmatOf a n n
-  let (m, ss) := run fltPrim As rank (ratToFloat tol)
+  let (m, ss) := runM fltPrim As rank (ratToFloat tol)
   s!"m={m} inexact=0 # " ++ " # ".intercalate (ss.map fun s => showMember showF s m)
+
+def parseCall? (s : String) : Option (Call Rat) :=
+  match s.splitOn ":" with
+  | [rk, et, st] =>
+    match rk.toNat?, (if et = "-" then some none else (parseRat? et).map some), parseRat? st with
+    | some rk, some et, some st => some ⟨rk, et, st⟩
+    | _, _, _ => none
+  | _ => none
+
+def runHist (memo : Bool) (n : Nat) (ms : List (Array (Array Rat))) (cs : List (Call Rat)) : String :=
+  let As : List (Mat Rat n n) := ms.map fun a => matOf a n n
+  let res := history memo ratPrim As [] cs
+  ";".intercalate (res.map fun (m, ss) =>
+    s!"{m}:" ++ "|".intercalate (ss.map fun s => showList toString ((List.finRange n).map fun j => (s.perm.get j).val)))
 
 /-- Strict copy of a matrix into arrays (so that later reads are O(1)). -/
 def toArrs {n m : Nat} (A : Mat Float n m) : Array (Array Float) :=
@@ -113,6 +131,15 @@ def runLine (line : String) : String :=
       if (a :: rest).any (fun b => b.size ≠ n || b.any (·.size ≠ n)) then "bad-shape"
       else if mode = "rat" then runPcRat n rank tol (a :: rest) else runPcFlt n rank tol (a :: rest)
     | _, _, _ => "bad-args"
+  | ["hist", memo, ms, cs] =>
+    match (ms.splitOn "|").mapM parseMat?, (cs.splitOn ";").mapM parseCall? with
+    | some (a :: rest), some cs =>
+      let n := a.size
+      if (a :: rest).any (fun b => b.size ≠ n || b.any (·.size ≠ n)) then "bad-shape"
+      else
+        let memo := if memo = "gen" then memoised LinOp.Generated.C10.pcDecorators else memo = "1"
+        runHist memo n (a :: rest) cs
+    | _, _ => "bad-args"
   | ["inv", p] =>
     match parseNats? p with
     | some ps =>
